@@ -466,3 +466,33 @@ Proof.
   destruct ul, ur, ll, lr, vch, e; simpl; try discriminate; intros _;
     eauto 8.
 Qed.
+
+(* ---------------------------------------------------------------------- *)
+(* non-vacuity                                                             *)
+(* ---------------------------------------------------------------------- *)
+Example ex_bright_bc_value :
+  match get_bright_bc [true; false; true; true] [10; 20; 30; 50]
+                      [1; 2; 3; 4] (Some (Qmake (1) 2)) with
+  | Some (a, v) => (a == Qmake 161 6)%Q /\ (v == Qmake 2054 9)%Q
+  | None => False
+  end.
+Proof. vm_compute. split; reflexivity. Qed.
+
+Definition ex_vals : list Z := [5; 1; 9; 3].
+
+Example ex_percentile :
+  (percentile 10 ex_vals == Qmake 16 10)%Q /\
+  (percentile 90 (shift 7 ex_vals) == Qmake 78 10 + inject_Z 7)%Q.
+Proof. vm_compute. split; reflexivity. Qed.
+
+Example ex_crosstalk :
+  nonneg6 (Qmake (1) 4) 0 (Qmake (1) 2) 0 (Qmake (1) 8) 0 /\
+  ~ (det3 (crosstalk_matrix (Qmake (1) 4) 0 (Qmake (1) 2) 0 (Qmake (1) 8) 0) == 0)%Q.
+Proof. vm_compute. repeat split; discriminate. Qed.
+
+(* the ambiguous square 6 (ur and ll high) with vertex_connect_high *)
+Example ex_case6 :
+  segs (square_case false true true false) true = [(EL, ET); (ER, EB)] /\
+  iterate_and_store [[false; true]; [true; false]] true
+  = Some [((9999, 0), (0, 9999)); ((1, 10000), (10000, 1))].
+Proof. vm_compute. split; reflexivity. Qed.
